@@ -50,6 +50,14 @@ type Contract struct {
 	rawLoops    map[int][]rawClause
 	raw         []rawClause
 	renames     map[string]string
+	floatOwner  *ssa.Function        // while binding a floating loop: the helper that contains the loop
+	floatVars   map[string]floatVar // its locals named by the clauses but not declared in the function's own scope
+}
+
+type floatVar struct {
+	typ  string
+	idx  int
+	name string // the helper's local it stands for (same as the clause's name unless recovered by type)
 }
 
 type LoopContract struct {
@@ -64,6 +72,8 @@ type LoopContract struct {
 	header     *ssa.BasicBlock
 	body       map[*ssa.BasicBlock]bool
 	pos        token.Pos
+	floating   bool          // the loop now lives in a helper that the function calls (extracted loop)
+	owner      *ssa.Function // function that contains the loop (== ct.Fn unless floating)
 }
 
 type Clause struct {
@@ -79,6 +89,7 @@ type Clause struct {
 	Assumed bool      // `assumes`: a well-formedness assumption on the inputs (not an obligation at call sites; listed in the evidence)
 	Except  []*Clause // known-finding predicates: the clause is proved under !except
 	nRes    int       // placeholders 0..nRes-1 are the results, then the binders
+	FloatNames map[int]string // placeholders >= 1000: locals of the helper that contains an extracted loop, by name
 }
 
 type rawClause struct {
@@ -456,6 +467,54 @@ func (e *Engine) parseClause(ct *Contract, rc rawClause, pos token.Pos, withResu
 			return nil, err
 		}
 		missing := m[1]
+		if ct.floatOwner != nil {
+			found := false
+			for _, b := range ct.floatOwner.Blocks {
+				for _, in := range b.Instrs {
+					if a, isA := in.(*ssa.Alloc); isA && a.Comment == missing && !found {
+						if ct.floatVars == nil {
+							ct.floatVars = map[string]floatVar{}
+						}
+						ct.floatVars[missing] = floatVar{types.TypeString(a.Type().(*types.Pointer).Elem(), types.RelativeTo(e.pkg.Types)), 1000 + len(ct.floatVars), missing}
+						found = true
+					}
+				}
+			}
+			if found {
+				cl, err = e.parseClause1(ct, rc, pos, withResults, idx)
+				continue
+			}
+			// no local of that name in the helper: a renamed one, if exactly one local of the helper makes the clause
+			// type-check
+			seen := map[string]bool{}
+			var okc []floatVar
+			for _, b := range ct.floatOwner.Blocks {
+				for _, in := range b.Instrs {
+					a, isA := in.(*ssa.Alloc)
+					if !isA || a.Comment == "" || seen[a.Comment] || strings.Contains(a.Comment, "$") || a.Comment == "rangeindex" {
+						continue
+					}
+					seen[a.Comment] = true
+					if ct.floatVars == nil {
+						ct.floatVars = map[string]floatVar{}
+					}
+					cand := floatVar{types.TypeString(a.Type().(*types.Pointer).Elem(), types.RelativeTo(e.pkg.Types)), 1000 + len(ct.floatVars), a.Comment}
+					ct.floatVars[missing] = cand
+					if _, err2 := e.parseClause1(ct, rc, pos, withResults, idx); err2 == nil {
+						okc = append(okc, cand)
+					} else if m2 := reUndefined.FindStringSubmatch(err2.Error()); m2 != nil && m2[1] != missing {
+						okc = append(okc, cand)
+					}
+					delete(ct.floatVars, missing)
+				}
+			}
+			if len(okc) == 1 {
+				ct.floatVars[missing] = okc[0]
+				e.renameNotes = append(e.renameNotes, fmt.Sprintf("%s: contract name %q resolved to local %q of the helper %s", ct.Key, missing, okc[0].name, fnKey(ct.floatOwner)))
+				cl, err = e.parseClause1(ct, rc, pos, withResults, idx)
+				continue
+			}
+		}
 		var ok []string
 		for _, cand := range e.unreferencedLocals(ct, pos) {
 			ct.renames[missing] = cand
@@ -564,6 +623,19 @@ func (e *Engine) parseClause1(ct *Contract, rc rawClause, pos token.Pos, withRes
 	for i, b := range cl.Binders {
 		varIdx[b] = cl.nRes + i
 		varType[b] = cl.BTypes[i]
+	}
+	if ct.floatOwner != nil {
+		for name, fv := range ct.floatVars {
+			if _, shadowed := varIdx[name]; shadowed {
+				continue
+			}
+			varIdx[name] = fv.idx
+			varType[name] = fv.typ
+			if cl.FloatNames == nil {
+				cl.FloatNames = map[int]string{}
+			}
+			cl.FloatNames[fv.idx] = fv.name
+		}
 	}
 	skip := map[*ast.Ident]bool{}
 	ast.Inspect(ex, func(n ast.Node) bool {
@@ -789,15 +861,48 @@ func (e *Engine) bindContract(ct *Contract) error {
 		}
 	}
 	var ords []int
+	maxOrd := 0
 	for o := range ct.rawLoops {
 		ords = append(ords, o)
+		if o > maxOrd {
+			maxOrd = o
+		}
 	}
 	sort.Ints(ords)
+	// Extracted loops: if the contract annotates more loops than the function has, splice in — in source order — the
+	// loops of the helpers it calls that have no contract of their own. Loop k of the contract is then the k-th loop of
+	// that sequence; clauses of a loop that now lives in a helper are resolved in the function's outermost scope and,
+	// at verification time, names are looked up in the helper's frame first (sound: they are only candidate
+	// invariants, every obligation is still proved on the code as it is).
+	type seqEntry struct {
+		pos    token.Pos
+		header *ssa.BasicBlock
+		owner  *ssa.Function
+	}
+	var seq []seqEntry
+	for i := range loops {
+		seq = append(seq, seqEntry{loops[i], hs[i], fn})
+	}
+	if maxOrd > len(loops) {
+		if sp := e.loopSequence(fn, 0); sp != nil && len(sp) >= maxOrd {
+			seq = nil
+			for _, x := range sp {
+				seq = append(seq, seqEntry{x.pos, x.header, x.owner})
+			}
+		}
+	}
 	for _, ord := range ords {
-		if ord < 1 || ord > len(loops) {
+		if ord < 1 || ord > len(seq) {
 			return fmt.Errorf("contract %s: loop %d does not exist (function has %d loops)", ct.Key, ord, len(loops))
 		}
-		lc := &LoopContract{Ord: ord, header: hs[ord-1], pos: loops[ord-1]}
+		lc := &LoopContract{Ord: ord, header: seq[ord-1].header, pos: seq[ord-1].pos, owner: seq[ord-1].owner}
+		ct.floatOwner, ct.floatVars = nil, nil
+		if lc.owner != fn {
+			lc.floating = true
+			ct.floatOwner = lc.owner
+			lc.pos = fd.Body.Rbrace
+			e.renameNotes = append(e.renameNotes, fmt.Sprintf("loop %d of the contract of %s applied to a loop of the helper %s", ord, ct.Key, fnKey(lc.owner)))
+		}
 		lc.body = naturalLoop(lc.header)
 		ni := 0
 		for _, rc := range ct.rawLoops[ord] {
@@ -846,6 +951,7 @@ func (e *Engine) bindContract(ct *Contract) error {
 			}
 		}
 		ct.Loops[ord] = lc
+		ct.floatOwner, ct.floatVars = nil, nil
 	}
 	return nil
 }
@@ -895,4 +1001,77 @@ func loopHeaders(fn *ssa.Function) []*ssa.BasicBlock {
 	}
 	sort.SliceStable(hs, func(i, j int) bool { return minPos(hs[i]) < minPos(hs[j]) })
 	return hs
+}
+
+type loopSeqEntry struct {
+	pos    token.Pos
+	header *ssa.BasicBlock
+	owner  *ssa.Function
+}
+
+// loopSequence: the loops of fn in source order, with the loops of contract-less helpers of the package spliced in
+// at their call sites (depth <= 2). nil if the syntactic and CFG loop counts of some function disagree.
+func (e *Engine) loopSequence(fn *ssa.Function, depth int) []loopSeqEntry {
+	fd, _ := fn.Syntax().(*ast.FuncDecl)
+	if fd == nil || fd.Body == nil {
+		return nil
+	}
+	hs := loopHeaders(fn)
+	var out []loopSeqEntry
+	n := 0
+	ok := true
+	ast.Inspect(fd.Body, func(nd ast.Node) bool {
+		switch x := nd.(type) {
+		case *ast.FuncLit:
+			return false
+		case *ast.ForStmt:
+			if n < len(hs) {
+				out = append(out, loopSeqEntry{x.Body.Lbrace + 1, hs[n], fn})
+			} else {
+				ok = false
+			}
+			n++
+		case *ast.RangeStmt:
+			if n < len(hs) {
+				out = append(out, loopSeqEntry{x.Body.Lbrace + 1, hs[n], fn})
+			} else {
+				ok = false
+			}
+			n++
+		case *ast.CallExpr:
+			if depth >= 2 {
+				return true
+			}
+			var id *ast.Ident
+			switch f := x.Fun.(type) {
+			case *ast.Ident:
+				id = f
+			case *ast.SelectorExpr:
+				id = f.Sel
+			}
+			if id == nil {
+				return true
+			}
+			tf, isFn := e.pkg.TypesInfo.Uses[id].(*types.Func)
+			if !isFn || tf.Pkg() != e.pkg.Types {
+				return true
+			}
+			callee := e.prog.FuncValue(tf)
+			if callee == nil || callee == fn || e.headerKeys[fnKey(callee)] {
+				return true
+			}
+			if sub := e.loopSequence(callee, depth+1); len(sub) > 0 {
+				// arguments are evaluated before the call: visit them first, then splice
+				for _, a := range x.Args {
+					ast.Inspect(a, func(ast.Node) bool { return true })
+				}
+				out = append(out, sub...)
+			}
+		}
+		return true
+	})
+	if !ok || n != len(hs) {
+		return nil
+	}
+	return out
 }
